@@ -434,7 +434,13 @@ def panic_sites(B, R=None):
             elif mk == 'overflow_neg':
                 sites.append({'kind': 'overflow', 'bb': bb, 'desc': 'Neg(%s)' % describe(B, canon(B, t['mops'][0])), 'need': ('neg', t['mops'][0])})
             elif mk in ('div0', 'rem0'):
-                sites.append({'kind': 'div0', 'bb': bb, 'desc': '%s by %s' % (mk, describe(B, canon(B, t['mops'][0]))), 'need': ('nonzero', t['mops'][0])})
+                # the assert condition is `divisor == 0` expected false
+                src, neg = B.bool_source(t['cond'])
+                div = None
+                if src[0] == 'bin' and src[2]['op'] == 'Eq':
+                    div = src[2]['a'] if fold(B.origin(src[2]['b'])) == 0 else src[2]['b']
+                sites.append({'kind': 'div0', 'bb': bb, 'desc': '%s of %s by %s' % (mk, describe(B, canon(B, t['mops'][0])), describe(B, canon(B, div)) if div else '?'),
+                              'need': ('nonzero', div) if div is not None else ('unknown', 'divisor')})
             continue
         if t['k'] != 'call':
             continue
@@ -594,6 +600,8 @@ def discharge(B, R, site):
                 # slice -> array conversion of a slice whose length is fixed by construction
                 return 'undecided', 'conversion result unwrapped'
         return 'bad', 'unwrap/expect on a value that is not shown to be Some/Ok'
+    if k == 'unknown':
+        return 'undecided', 'obligation shape not recognised (%s)' % (need[1],)
     if k == 'unreachable':
         return 'bad', 'explicit panic is reachable'
     if k == 'never':
@@ -617,6 +625,8 @@ def discharge(B, R, site):
             lb = _static_len(B, t['args'][1])
             if la is not None and lb is not None and la == lb:
                 return 'ok', 'both sides have static length %d' % la
+            if la is not None and lb is not None and la != lb:
+                return 'bad', 'copy_from_slice between slices of different static lengths (%d vs %d) always panics' % (la, lb)
             if ra[0] == ra[1] == rb[0] == rb[1]:
                 return 'ok', 'lengths equal'
             return 'undecided', 'slice lengths not shown equal (%s vs %s)' % (la, lb)
@@ -649,13 +659,24 @@ def _static_len(B, op):
         if base[0] == 'proj':
             projs = tuple(base[2]) + projs
         base = base[1]
-    if base[0] == 'call' and base[1] in ('core::ops::function::FnMut::call_mut', 'nom::internal::Parser::parse', 'core::ops::function::FnOnce::call_once'):
+    if base[0] == 'call' and callee_of(B.blocks[base[2]]['t'])[0] in ('core::ops::function::FnMut::call_mut', 'nom::internal::Parser::parse', 'core::ops::function::FnOnce::call_once'):
         t = B.blocks[base[2]]['t']
         fo = B.origin(t['args'][0])
         if fo[0] == 'call' and fo[1] and fo[1].startswith('nom::bytes::complete::take'):
             n = fold(B.origin(B.blocks[fo[2]]['t']['args'][0]))
             if n is not None and ('1' in projs or '1' in tuple(base[3])):
                 return n
+    return None
+
+
+def _reviewed(table, inst):
+    """exact key, or a key of the form 're:<regex>' matched against the whole instance"""
+    import re
+    if inst in table:
+        return table[inst]
+    for k, v in table.items():
+        if k.startswith('re:') and re.fullmatch(k[3:], inst):
+            return v
     return None
 
 
@@ -674,10 +695,170 @@ def check_panics(ctx, B, rule, reviewed=None, kinds=None, key_prefix='PANIC'):
         where = ctx.where(B, site['bb'])
         if verdict == 'ok':
             ctx.ok(rule, inst, detail, where)
-        elif inst in reviewed:
-            ctx.ok(rule, inst, 'reviewed: ' + reviewed[inst], where)
+        elif _reviewed(reviewed, inst):
+            ctx.ok(rule, inst, 'reviewed: ' + _reviewed(reviewed, inst), where)
         elif verdict == 'undecided':
             ctx.undecided(rule, inst, detail, where)
         else:
             ctx.bad(rule, inst, '%s site not discharged: %s' % (site['kind'], detail), where, key='%s:%s' % (key_prefix, inst))
+    return n
+
+
+# ------------------------------------------------------------------ ALLOC ----
+
+ALLOC_LIMIT = 1 << 20
+ALLOC_FNS = {
+    'alloc::vec::Vec::<T>::with_capacity': 0, 'alloc::vec::from_elem': 1, 'alloc::vec::Vec::<T, A>::reserve': 1,
+    'alloc::vec::Vec::<T, A>::reserve_exact': 1, 'alloc::vec::Vec::<T, A>::resize': 1, 'alloc::vec::Vec::<T, A>::with_capacity_in': 0,
+    'bytes::bytes_mut::BytesMut::with_capacity': 0, 'alloc::string::String::with_capacity': 0,
+    'std::collections::hash::map::HashMap::<K, V>::with_capacity': 0, 'alloc::collections::vec_deque::VecDeque::<T>::with_capacity': 0,
+    'bytes::bytes_mut::BytesMut::reserve': 1, 'bytes::bytes_mut::BytesMut::resize': 1, 'bytes::bytes_mut::BytesMut::zeroed': 0,
+}
+
+
+def _vec_esz(B, t, argpos):
+    """element size of the vector being allocated"""
+    l = t['dst']['l']
+    e = B.b['locals'][l].get('esz')
+    if e is not None:
+        return e
+    if argpos == 1 and t['args'] and t['args'][0]['k'] in ('cp', 'mv'):
+        # receiver: &mut Vec<T>
+        cur = t['args'][0]
+        for _ in range(6):
+            ll = cur['pl']['l']
+            e = B.b['locals'][ll].get('esz')
+            if e is not None:
+                return e
+            d = B.single_def(ll)
+            if d and d[0] == 's' and d[3]['rv']['k'] == 'ref':
+                cur = {'k': 'cp', 'pl': d[3]['rv']['pl']}
+                continue
+            break
+    ty = B.local_ty(l)
+    if 'BytesMut' in ty or 'String' in ty or 'Vec<u8>' in ty:
+        return 1
+    return None
+
+
+def check_allocs(ctx, B, rule, reviewed=None, key_prefix='ALLOC'):
+    """ALLOC: every non-constant capacity/size is bounded by a small constant (x element size <= 1 MiB)
+    or by the length of an input slice in scope."""
+    reviewed = reviewed or {}
+    R = Ranges(B)
+    seen = {}
+    n = 0
+    slices = []       # (canon, defining block or None for parameters)
+    for i, l in enumerate(B.b['locals']):
+        if l['ty'] in ('&[u8]', '&mut &[u8]') and (l.get('n') or 1 <= i <= B.b['argc']):
+            defs = B.defs().get(i, [])
+            if 1 <= i <= B.b['argc'] and not defs:
+                slices.append((canon(B, {'k': 'cp', 'pl': {'l': i}}), None))
+            elif len(defs) == 1:
+                slices.append((canon(B, {'k': 'cp', 'pl': {'l': i}}), defs[0][1]))
+    for bb, t in B.calls():
+        g, r = callee_of(t)
+        pos = None
+        for nme in (g, r):
+            if nme in ALLOC_FNS:
+                pos = ALLOC_FNS[nme]
+                fn = nme
+        if pos is None or len(t['args']) <= pos:
+            continue
+        op = t['args'][pos]
+        if op['k'] == 'c':
+            continue
+        n += 1
+        c = canon(B, op)
+        esz = _vec_esz(B, t, pos) or 1
+        inst = uniq_key(seen, '%s:%s(%s)' % (B.path, fn.rsplit('::', 1)[1], describe(B, c)))
+        rng = R.range_of(op, bb)
+        where = ctx.where(B, bb)
+        if rng[1] != INF and rng[1] * esz <= ALLOC_LIMIT:
+            ctx.ok(rule, inst, 'at most %d elements x %d bytes = %d bytes' % (rng[1], esz, rng[1] * esz), where)
+            continue
+        bounded = None
+        for sc, db in slices:
+            # the slice must already exist when the allocation happens
+            if db is not None and (db == bb or not B.block_dominates(db, bb)):
+                continue
+            if R.prove_le(c, ('len', sc), bb, strict=False):
+                bounded = sc
+                break
+        if bounded is not None:
+            ctx.ok(rule, inst, 'bounded by the length of the remaining input %s' % describe(B, bounded), where)
+        elif inst in reviewed:
+            ctx.ok(rule, inst, 'reviewed: ' + reviewed[inst], where)
+        else:
+            ctx.bad(rule, inst, 'allocation of up to %s elements x %d bytes requested from a wire-supplied count, bounded neither by the input length nor by a small constant' % (
+                rng[1], esz), where, key='%s:%s' % (key_prefix, inst))
+    return n
+
+
+def check_read_to_end(ctx, B, rule):
+    """Read::read_to_end / read_to_string must be called on a length-limited reader (io::Take)."""
+    n = 0
+    for bb, t in B.calls():
+        g, r = callee_of(t)
+        if g in ('std::io::Read::read_to_end', 'std::io::Read::read_to_string'):
+            n += 1
+            recv = t['aty'][0] if t.get('aty') else ''
+            inst = '%s:%s' % (B.path, g.rsplit('::', 1)[1])
+            if 'std::io::Take<' in recv:
+                ctx.ok(rule, inst, 'reads through %s' % recv, ctx.where(B, bb))
+            else:
+                ctx.bad(rule, inst, 'unbounded %s on %s: the output grows with whatever the stream inflates to, not with the input or the declared size' % (
+                    g.rsplit('::', 1)[1], recv), ctx.where(B, bb), key='ALLOC:%s:unbounded' % inst)
+    return n
+
+
+# -------------------------------------------------------------------- REC ----
+
+def check_recursion(ctx, P, roots, rule, crate=None, key_prefix='REC'):
+    """Every call-graph cycle reachable from roots must pass through a function that bounds an integer
+    depth/fuel parameter at its recursive call sites."""
+    reach = P.reachable_from(roots)
+    if crate:
+        reach = {p for p in reach if P.F.bodies[p]['crate'] == crate}
+    cg = P.callgraph()
+    n = 0
+    for comp in P.sccs(reach):
+        cs = set(comp)
+        cyclic = len(comp) > 1 or comp[0] in cg.get(comp[0], ())
+        if not cyclic:
+            continue
+        n += 1
+        guarded = set()
+        for f in comp:
+            B = P.B(f)
+            R = Ranges(B)
+            params = [i for i in range(1, B.b['argc'] + 1) if ty_range(B.local_ty(i)) and B.local_ty(i) not in ('bool', 'u8')]
+            if not params:
+                continue
+            rec_calls = [(bb, t) for bb, t in B.calls() if any(c in cs for c in callee_names(t))]
+            if not rec_calls:
+                continue
+            for p in params:
+                okp = True
+                for bb, t in rec_calls:
+                    rng = R.range_of({'k': 'cp', 'pl': {'l': p}}, bb)
+                    tr = ty_range(B.local_ty(p))
+                    if not (rng[1] < tr[1] and rng[1] <= 1 << 20) and not (rng[0] > tr[0]):
+                        okp = False
+                if okp:
+                    guarded.add(f)
+        # does a cycle survive without the guarded functions?
+        rest = cs - guarded
+        survives = False
+        for comp2 in P.sccs(rest):
+            if len(comp2) > 1 or comp2[0] in cg.get(comp2[0], ()):
+                survives = True
+        ext = sorted(f for f in comp if any(f in cg.get(q, ()) for q in reach if q not in cs) or f in roots)
+        entry = ext[0] if ext else sorted(comp)[0]
+        inst = '%s (+%d functions)' % (entry, len(comp) - 1)
+        if not survives:
+            ctx.ok(rule, inst, 'every cycle passes a depth/fuel guard in %s' % sorted(guarded)[:3])
+        else:
+            ctx.bad(rule, inst, 'recursion through %d mutually recursive functions (e.g. %s) has no depth limit: nesting depth is bounded only by the input length, so a few tens of kilobytes of nested containers overflow a worker stack'
+                    % (len(comp), ', '.join(x.rsplit('::', 1)[1] for x in sorted(comp)[:4])), ctx.where(P.B(entry)), key='%s:%s' % (key_prefix, entry))
     return n
